@@ -1,0 +1,9 @@
+//go:build verif
+
+package val
+
+// EpsilonHook exposes the comparison tolerance (verification harness hook).
+const EpsilonHook = epsilon
+
+// KeyParts exposes the tag and text of a map key (verification harness hook).
+func KeyParts(k Key) (tag string, text string) { return k.tag.String(), k.val }
